@@ -173,16 +173,68 @@ func VH_C07_refresh() {
 	vhRunNet(net, a, b, 12)
 	vAssume(vAll(a.c.msgState == encrypted, b.c.msgState == encrypted))
 	ssid1 := a.c.ssid
-	// later: B asks again
-	a.c.lastMessageStateChange = a.c.lastMessageStateChange.Add(-2 * timeoutLength)
-	if a.c.ake != nil {
-		a.c.ake.lastStateChange = a.c.ake.lastStateChange.Add(-2 * timeoutLength)
+	// B asks again: at any time (symbolic clock; within the repeat window the
+	// query may be ignored and the old session stays), or after the window
+	waited := vChoose("waited", 2) == 1
+	if waited {
+		a.c.lastMessageStateChange = a.c.lastMessageStateChange.Add(-2 * timeoutLength)
+		if a.c.ake != nil {
+			a.c.ake.lastStateChange = a.c.ake.lastStateChange.Add(-2 * timeoutLength)
+		}
 	}
 	net2 := &vhNet{}
 	net2.ba = append(net2.ba, b.c.QueryMessage())
 	vhRunNet(net2, a, b, 12)
 	vhAssertOneSession(a, b, net2, 12)
-	vAssert("refresh-still-secure-events", vAll(a.ev.countSec(StillSecure) == 1, b.ev.countSec(StillSecure) == 1))
+	if waited {
+		vAssert("refresh-still-secure-events", vAll(a.ev.countSec(StillSecure) == 1, b.ev.countSec(StillSecure) == 1))
+	}
 	_ = ssid1
+	vReach("end")
+}
+
+// H-C07-restart: a session is ended by one side and a new key exchange is
+// started straight away by either side (any time later: the clock is
+// symbolic); every schedule.
+//
+// vh: prop=C07 expect=end unwind=900 timeout=120000 maxsteps=300000000
+func VH_C07_restart() {
+	vBigStrip(0)
+	vhQuickOrder()
+	a, b := vhFreshParty(0, true), vhFreshParty(1, true)
+	net := &vhNet{}
+	net.ba = append(net.ba, b.c.QueryMessage())
+	vhRunNet(net, a, b, 12)
+	vAssume(vAll(a.c.msgState == encrypted, b.c.msgState == encrypted, !net.pending()))
+	// one side ends the session; the other learns of it
+	ender, other := a, b
+	if vChoose("ender", 2) == 1 {
+		ender, other = b, a
+	}
+	bye, err := ender.c.End()
+	vAssume(vAll(err == nil, len(bye) == 1))
+	_, back, err2 := other.c.Receive(bye[0])
+	vAssume(vAll(err2 == nil, len(back) == 0))
+	vAssert("ended", vAll(ender.c.msgState == plainText, other.c.msgState == finished))
+	// restart by a query from either side
+	net2 := &vhNet{}
+	if vChoose("starter", 2) == 0 {
+		q := ender.c.QueryMessage()
+		if ender == a {
+			net2.ab = append(net2.ab, q)
+		} else {
+			net2.ba = append(net2.ba, q)
+		}
+	} else {
+		q := other.c.QueryMessage()
+		if other == a {
+			net2.ab = append(net2.ab, q)
+		} else {
+			net2.ba = append(net2.ba, q)
+		}
+	}
+	vhRunNet(net2, a, b, 12)
+	vhAssertOneSession(a, b, net2, 12)
+	vAssert("restart-gone-secure-again", vAll(a.ev.countSec(GoneSecure) == 2, b.ev.countSec(GoneSecure) == 2))
 	vReach("end")
 }
